@@ -257,17 +257,17 @@ def _case(rng, kind=None, fluxp=None, zerop=None, gridp=None, method='?', ivp=No
         ncol = rng.randrange(110, 170)
         nspec = rng.choice([2, 2, 3])
         zerop = zerop or rng.choice(['none', 'singles', 'runs', 'ends', 'fewgood'])
-        dith = rng.choice(['same', 'dither', 'dither'])
-        f0, sig = _flux(rng, ncol + 4, fluxp)
+        dith = rng.choice(['same', 'dither', 'dither', 'offset'])    # offset: exposures covering different wavelength ranges
+        f0, sig = _flux(rng, ncol + 36, fluxp)
         xs_, fs, ivs = [], [], []
         for s in range(nspec):
-            off = 0.0 if dith == 'same' else rng.uniform(-0.45, 0.45) + rng.choice([0, 1, 2])
+            off = 0.0 if dith == 'same' else rng.uniform(-0.45, 0.45) + (rng.choice([0, 1, 2]) if dith == 'dither' or s == 0 else rng.choice([8, 15, 30]))
             xr = [x0 + dx * (j + off) for j in range(ncol)]
             if fluxp == 'const':
                 fr = [float(f0[0])] * ncol
             else:
                 # the same underlying spectrum sampled at the dithered positions (linear resampling of the template)
-                tj = [min(max(j + off, 0.0), ncol + 2.99) for j in range(ncol)]
+                tj = [min(max(j + off, 0.0), len(f0) - 1.01) for j in range(ncol)]
                 fr = [float(f0[int(t)] * (1 - (t - int(t))) + f0[int(t) + 1] * (t - int(t))) for t in tj]
             base = 1.0 / sig ** 2 if fluxp in ('noisy', 'spikes') else rng.uniform(0.5, 40)
             ivr = [base * rng.uniform(0.7, 1.3) for _ in range(ncol)]
@@ -718,6 +718,9 @@ def _directed(rng):
     for zp in ['none', 'singles', 'runs', 'ends', 'fewgood']:
         cases.append(_case(rng, kind='2d', zerop=zp))
     cases.append(_case(rng, kind='2d', fluxp='const'))
+    for _ in range(3):
+        c = _case(rng, kind='2d', zerop='singles')
+        cases.append(c)
     return cases
 
 
